@@ -25,6 +25,10 @@ func C02(c *mc.Ctx) {
 	// a pair whose SOURCE service is registered as unordered (destination ordered)
 	runIC(c, "C02", c02Oracle, fix.Options{Audit: false}, "icmc-unordered-source",
 		[]string{"req:p6:n:0", "rc:p6:n:s", "rc:p6:f:s", "rc:p6:d:s", "rc:p6:u:s", "req:p6:d:0", "req:p6:f:0", "rc:p6:n:f", "req:p6:n:0+req:p6:n:0", "req:p1:n:0", "rc:p6:f:s+rc:p6:n:s"}, depth-1)
+	// between two BitXHubs: a local service calling a service on the remote hub (delivered to the
+	// union pier) and a service on the remote hub calling a local service
+	runIC(c, "C02", c02Oracle, fix.Options{Audit: false}, "icmc-inter-hub",
+		[]string{"req:ph:n:0", "rc:ph:n:s", "req:pr:n:0", "rc:pr:n:s", "rc:pr:n:f", "req:ph:d:0", "req:pr:f:0", "nt:ph:n:br", "rc:ph:f:s", "req:ph:n:0+req:pr:n:0", "req:p1:n:0"}, depth-1)
 	fix.Cleanup()
 	c.Set("rule", "BFS over block histories whose blocks carry IBTP requests/receipts for 4 ordered service pairs (one blacklisted, one reverse, one service sending to itself; in a further exploration a pair whose source service is registered as unordered) with index = next/duplicate/future/zero/huge/unknown, mixed packing, unrelated transfers and direct calls of the interchain contract's public methods by an outsider; audit off and on; after every block receipts, both-side counters, index records and the block's delivery sets are compared with the reference model")
 	c.Assume("all proofs in this check are valid (HappyRule); proof handling is C03")
